@@ -252,14 +252,20 @@ def execute(h):
     amount = _frac(cfg['amount'])
     moneys = [Money(amount, c) for c in curs]
     gq = [G(_frac(cfg['gamount']), u) for u in gunits]
-    pairs = [(a, b) for a in range(n_cur) for b in range(n_cur) if a != b]
-    gpairs = [(a, b) for a in range(3) for b in range(3) if a != b]
+    # the same again with amount zero: zero is an amount, too (a converter
+    # answering 0 has answered)
+    money_sets = [moneys, [Money(0, c) for c in curs]]
+    gq_sets = [gq, [G(0, u) for u in gunits]]
+    pairs = [(a, b, k) for k in (0, 1) for a in range(n_cur)
+             for b in range(n_cur) if a != b]
+    gpairs = [(a, b, k) for k in (0, 1) for a in range(3) for b in range(3)
+              if a != b]
 
     # answers of every converter when called directly (the library's own
     # arithmetic; the model only selects *which* converter answers)
-    def direct(mc, a, b):
+    def direct(mc, a, b, k):
         try:
-            amt = mc(moneys[a], curs[b])
+            amt = mc(money_sets[k][a], curs[b])
         except UnitConversionError:
             return ('exc', 'UnitConversionError')
         if amt is None:
@@ -276,9 +282,9 @@ def execute(h):
 
     answers = [{p: safely(direct, mc, *p) for p in pairs} for mc in mconvs]
 
-    def gdirect(gc, a, b):
+    def gdirect(gc, a, b, k):
         try:
-            amt = gc(gq[a], gunits[b])
+            amt = gc(gq_sets[k][a], gunits[b])
         except _StubRaise:
             return ('raise',)
         if amt is None:
@@ -365,8 +371,9 @@ def execute(h):
         vec = []
         # --- money conversions, every ordered pair
         for p in pairs:
-            a, b = p
-            o = observe(lambda: _num(moneys[a].convert(curs[b]).amount))
+            a, b, k = p
+            o = observe(lambda: _num(
+                money_sets[k][a].convert(curs[b]).amount))
             e = conv_exp(expected_money(p))
             vec.append(o)
             if e[0] == 'unjudged':
@@ -381,8 +388,8 @@ def execute(h):
                         expected=list(e), observed=list(o),
                         model_stack=list(mstack), answered_by=who)
         # --- +, <, == across currencies (first pair only)
-        a, b = pairs[0]
-        e = expected_money((b, a))   # other converted to self.unit
+        a, b = pairs[0][:2]
+        e = expected_money((b, a, 0))   # other converted to self.unit
         if e[0] == 'unjudged':
             e = ('exc', None)       # nothing below will match 'ok'
             skip_ops = True
@@ -401,6 +408,18 @@ def execute(h):
             violate('money_add', 'value', step, pair=[a, b],
                     expected=list(exp), observed=list(o),
                     model_stack=list(mstack))
+        # adding a zero amount of another currency needs the converter, too
+        ez = expected_money((b, a, 1))
+        if ez[0] != 'unjudged':
+            o = observe(lambda: _num((moneys[a] + money_sets[1][b]).amount))
+            vec.append(o)
+            expz = ('ok', _num(Money(moneys[a].amount + _frac(ez[2]),
+                                     curs[a]).amount)) \
+                if ez[0] == 'ok' else ez[:2]
+            if o != expz:
+                violate('money_add', 'zero', step, pair=[a, b],
+                        expected=list(expz), observed=list(o),
+                        model_stack=list(mstack))
         # a - b and a / b go through the same implicit conversion
         o = observe(lambda: _num((moneys[a] - moneys[b]).amount))
         vec.append(o)
@@ -442,8 +461,9 @@ def execute(h):
                     model_stack=list(mstack))
         # --- generic conversions
         for p in gpairs:
-            a, b = p
-            o = observe(lambda: _num(gq[a].convert(gunits[b]).amount))
+            a, b, k = p
+            o = observe(lambda: _num(
+                gq_sets[k][a].convert(gunits[b]).amount))
             vec.append(o)
             e, skipped = expected_generic(p)
             if e[0] == 'unjudged':
